@@ -97,6 +97,9 @@ def gen_case(run_seed: int, tier: str) -> dict:
                         "rel": r.random() < 0.25})
         else:
             ops.append({"op": r.choice(_OPS1), "a": r.choice(_TARGETS), "rel": r.random() < 0.25})
+    forms = st.get("forms")
+    for op in ops:
+        op["form"] = forms.choice(["str", "str", "str", "bytes", "pathlike"])
     f = st.get("faults")
     faults = []
     if f.random() < 0.3:
@@ -146,6 +149,13 @@ def _do(op: dict, root: str) -> list[str]:
     if "b" in op:
         b = op["b"] if rel else os.path.join(root, op["b"])
     touched = [op["a"]] + ([op["b"]] if "b" in op else [])
+    form = op.get("form", "str")
+    if form != "str" and not name.startswith("path_") and name not in ("touch", "write_text", "write_bytes"):
+        # the same path handed over as bytes or as an os.PathLike object
+        conv = os.fsencode if form == "bytes" else Path
+        a = conv(a)
+        if b is not None:
+            b = conv(b)
     if name in ("open_r", "open_w", "open_a", "open_x", "open_rp", "open_wp"):
         mode = {"open_r": "r", "open_w": "w", "open_a": "a", "open_x": "x", "open_rp": "r+", "open_wp": "w+"}[name]
         with open(a, mode) as fh:
